@@ -458,6 +458,32 @@ func TestC19(t *testing.T) {
 			}()
 			pb.Reset()
 		}
+		// the context object handed to interface callbacks is rendered for the log like any argument; its Data field is the
+		// user's and may lead back to the context
+		try("iface context whose Data refers back to it", func() {
+			var j I
+			cb := mocker.Create()
+			defer cb.Reset()
+			type state struct {
+				Ctx   *mocker.IContext
+				Calls int
+			}
+			cb.Interface(&j).Method("Get").Apply(func(ctx *mocker.IContext, a int, s string) int {
+				if ctx.Data == nil {
+					ctx.Data = &state{Ctx: ctx}
+				}
+				st := ctx.Data.(*state)
+				st.Calls++
+				return a + st.Calls
+			})
+			r1, r2 := j.Get(k, "x"), j.Get(k, "y")
+			var j2 I
+			cb.Interface(&j2).Method("Get").Apply(func(ctx *mocker.IContext, a int, s string) int {
+				ctx.Data = ctx
+				return a - 1
+			})
+			rec("iface self-referential context -> %d %d %d %d", r1, r2, j2.Get(k, "x"), j2.Get(k, "y"))
+		})
 		try("iface unmocked method", func() {
 			var j I
 			b2 := mocker.Create()
